@@ -300,7 +300,7 @@ class StmtMixin:
             if key in c.loops:
                 self.loop_keys_used.add(key)
                 v = c.loops[key]
-                return list(v) if isinstance(v, (list, tuple)) else [v]
+                return self.clauses(list(v) if isinstance(v, (list, tuple)) else [v])
         return []
 
     def exec_loop(self, state, node, omp=None):
@@ -374,15 +374,15 @@ class StmtMixin:
         auto = self.auto_invariant(pre, node, init, cond, inc, body, mod_vars)
         ns_extra = {"pre": OldNS(self._bind(pre))}
         # establish
-        for i, s in enumerate(invs):
+        for tag, s in invs:
             g = K.evaluate(s, self.namespace(pre, self.entry, extra=ns_extra))
-            self.oblige(pre, "inv.init", node, g, label="loop%d:%s" % (ordinal, norm_text(s)))
+            self.oblige(pre, "inv.init", node, g, label="loop%d:%s" % (ordinal, norm_text(s)), prop=tag)
         head = pre.copy()
         self.havoc(head, pre, mod_vars, mod_regions, fresh_ptrs)
         for a in auto:
             self.fact(head, a(head))
         ns_head = self.namespace(head, self.entry, extra=ns_extra)
-        for s in invs:
+        for tag, s in invs:
             self.fact(head, K.evaluate(s, ns_head))
         self.drain_axioms()
         if omp is not None:
@@ -411,9 +411,9 @@ class StmtMixin:
                 brk = merge(brk, leave)
                 endb.pc.append(cvd)
             ns_end = self.namespace(endb, self.entry, extra=ns_extra)
-            for i, s in enumerate(invs):
+            for tag, s in invs:
                 self.oblige(endb, "inv.preserve", node, K.evaluate(s, ns_end),
-                            label="loop%d:%s" % (ordinal, norm_text(s)))
+                            label="loop%d:%s" % (ordinal, norm_text(s)), prop=tag)
             for j, a in enumerate(auto):
                 self.oblige(endb, "inv.preserve", node, a(endb), label="loop%d:auto%d" % (ordinal, j))
         self.loop_stack.pop()
@@ -898,12 +898,8 @@ class StmtMixin:
             else:
                 result = ArrView(self, end, rv) if rv.region is not None else None
         ns = self.namespace(end, self.entry, result=result, formals_at_entry=True)
-        for i, s in enumerate(c.ensures):
-            prop = None
-            txt = s
-            if isinstance(s, tuple):
-                prop, txt = s
-            self.oblige(end, "ensures", None, K.evaluate(txt, ns), label="#%d:%s" % (i, norm_text(txt)), prop=prop)
+        for i, (prop, txt) in enumerate(self.clauses(c.ensures)):
+            self.oblige(end, "ensures", None, K.evaluate(txt, ns), label=norm_text(txt), prop=prop)
         for name, rng in c.outputs.items():
             lo, hi = [K.evaluate(x, ns) for x in rng.split("..")]
             view = ns[name]
